@@ -1500,9 +1500,17 @@ class SuccessionDiagram:
         Note that the depth can only increase.
         """
         assert self.dag.edges[parent_id, node_id] is not None
-        parent_depth = cast(int, self.dag.nodes[parent_id]["depth"])
-        current_depth = cast(int, self.dag.nodes[node_id]["depth"])
-        self.dag.nodes[node_id]["depth"] = max(current_depth, parent_depth + 1)
+        # If the depth of `node_id` increases and the node already has successors,
+        # their depth has to be increased as well (and so on).
+        stack = [(node_id, parent_id)]
+        while len(stack) > 0:
+            (child, parent) = stack.pop()
+            parent_depth = cast(int, self.dag.nodes[parent]["depth"])
+            current_depth = cast(int, self.dag.nodes[child]["depth"])
+            if parent_depth + 1 > current_depth:
+                self.dag.nodes[child]["depth"] = parent_depth + 1
+                for s in cast(list[int], list(self.dag.successors(child))):  # type: ignore
+                    stack.append((s, child))
 
     def _expand_one_node(self, node_id: int):
         """
